@@ -45,6 +45,10 @@ type Op struct {
 	// Rep > 1: the write is executed Rep times in a loop (one source location executed hundreds of times:
 	// whatever the interpreter remembers per location only after it became "hot"); the last result counts
 	Rep int `json:"rep,omitempty"`
+	// Via: how the write reaches the instance: "" directly, "clone" through a fresh `clone` of it, "clone2" through a
+	// clone of a clone, "arr" through an array element holding it. A copy of an instance is still an object of that
+	// instantiation: it accepts what the instance accepts.
+	Via string `json:"via,omitempty"`
 }
 
 type W struct {
@@ -171,6 +175,9 @@ func gen(r *verifsim.Rng, tier string) (any, hx.Sched) {
 		if op.Mem != "ctor" && r.Intn(12) == 0 {
 			op.Rep = verifsim.Pick(r, []int{40, 300, 300, 700})
 		}
+		if op.Mem != "ctor" && r.Intn(6) == 0 {
+			op.Via = verifsim.Pick(r, []string{"clone", "clone", "clone2", "arr"})
+		}
 		w.Ops = append(w.Ops, op)
 	}
 	if w.Conc > 0 {
@@ -238,6 +245,13 @@ func shrink(x any) []any {
 		c := cp()
 		c.Conc = 0
 		out = append(out, c)
+	}
+	for i, op := range w.Ops {
+		if op.Via == "clone2" {
+			c := cp()
+			c.Ops[i].Via = "clone"
+			out = append(out, c)
+		}
 	}
 	return out
 }
@@ -326,10 +340,23 @@ func renderOp(op Op, idx int) string {
 		return fmt.Sprintf("__rec(\"w%d\", (function() { try { $x = new G6<%s>(%s); return \"A\"; } catch (\\Throwable $e) { return \"R\"; } })());\n", idx, strings.Join(op.Args, ", "), valueExpr[op.Val])
 	}
 	fn := map[string]string{"p": "wp", "q": "wq", "u": "wu", "kw": "wkw", "kwn": "wkwn", "a": "wa", "b": "wb", "set": "wset", "put": "wput", "c": "wc", "d": "wd", "fill": "wfill", "made": "wmade"}[op.Mem]
-	if op.Rep > 1 {
-		return fmt.Sprintf("for ($rep = 0; $rep < %d; $rep++) { $last = %s($o%d, %s); }\n__rec(\"w%d\", $last);\n", op.Rep, fn, op.Inst, valueExpr[op.Val], idx)
+	target := fmt.Sprintf("$o%d", op.Inst)
+	pre := ""
+	switch op.Via {
+	case "clone":
+		pre = fmt.Sprintf("$via%d = clone $o%d;\n", idx, op.Inst)
+		target = fmt.Sprintf("$via%d", idx)
+	case "clone2":
+		pre = fmt.Sprintf("$via%da = clone $o%d;\n$via%d = clone $via%da;\n", idx, op.Inst, idx, idx)
+		target = fmt.Sprintf("$via%d", idx)
+	case "arr":
+		pre = fmt.Sprintf("$via%d = [\"k\" => $o%d];\n", idx, op.Inst)
+		target = fmt.Sprintf("$via%d[\"k\"]", idx)
 	}
-	return fmt.Sprintf("__rec(\"w%d\", %s($o%d, %s));\n", idx, fn, op.Inst, valueExpr[op.Val])
+	if op.Rep > 1 {
+		return pre + fmt.Sprintf("for ($rep = 0; $rep < %d; $rep++) { $last = %s(%s, %s); }\n__rec(\"w%d\", $last);\n", op.Rep, fn, target, valueExpr[op.Val], idx)
+	}
+	return pre + fmt.Sprintf("__rec(\"w%d\", %s(%s, %s));\n", idx, fn, target, valueExpr[op.Val])
 }
 
 // concreteTable: what a NON-generic class with the same declared type accepts.
@@ -487,12 +514,18 @@ func exec(t *testing.T, x any, s hx.Sched) *hx.Outcome {
 				targ = in.Args[3]
 			}
 			desc := fmt.Sprintf("%s<%s> member %s := %s value", in.Class, strings.Join(in.Args, ","), op.Mem, op.Val)
+			mk := memKind(op.Mem)
+			if op.Via != "" {
+				o.Probe("write_through_a_clone_or_array_copy_of_the_instance", 1)
+				desc += " (written through " + map[string]string{"clone": "a clone of the instance", "clone2": "a clone of a clone of the instance", "arr": "an array element holding the instance"}[op.Via] + ")"
+				mk += "-via-" + op.Via
+			}
 			if h != sOK {
 				mode := "sequential"
 				if w.Conc > 0 {
 					mode = "concurrent"
 				}
-				o.Violate(fmt.Sprintf("C19/history-dependent/%s/%s", memKind(op.Mem), mode),
+				o.Violate(fmt.Sprintf("C19/history-dependent/%s/%s", mk, mode),
 					fmt.Sprintf("%s is %s in this history but %s when the instance is the only instantiation in a fresh VM; history: %s", desc, ar(h), ar(sOK), histStr(w)))
 			}
 			// oracle 2 (own arguments): differential against a non-generic class declared with the concrete type
@@ -507,7 +540,7 @@ func exec(t *testing.T, x any, s hx.Sched) *hx.Outcome {
 				ckey = "" // what `new T()` builds has no non-generic counterpart; the solo oracle covers it
 			}
 			if want, ok := concrete[ckey]; ok && sOK != want {
-				o.Violate(fmt.Sprintf("C19/own-argument-not-enforced/%s/%s-gets-%s", memKind(op.Mem), targ, op.Val),
+				o.Violate(fmt.Sprintf("C19/own-argument-not-enforced/%s/%s-gets-%s", mk, targ, op.Val),
 					fmt.Sprintf("alone in a fresh VM, %s is %s, but a non-generic class whose member is declared %s has it %s", desc, ar(sOK), targ, ar(want)))
 			}
 		}
@@ -550,7 +583,7 @@ func histStr(w *W) string {
 		if op.K == "I" {
 			parts = append(parts, fmt.Sprintf("$o%d=new %s<%s>", op.Inst, op.Class, strings.Join(op.Args, ",")))
 		} else {
-			parts = append(parts, fmt.Sprintf("$o%d.%s:=%s", op.Inst, op.Mem, op.Val))
+			parts = append(parts, fmt.Sprintf("$o%d.%s:=%s%s", op.Inst, op.Mem, op.Val, map[bool]string{true: " via " + op.Via, false: ""}[op.Via != ""]))
 		}
 	}
 	return strings.Join(parts, "; ")
